@@ -784,7 +784,17 @@ impl<'a> Parser<'a> {
             self.parse_re(ix, depth)?
         };
         next = self.check_for_close_paren(next)?;
-        let (end, child) = self.parse_re(next, depth)?;
+        // The true branch ends at the first top-level `|`; everything after it is the false
+        // branch. (Looking for an `Expr::Alt` in the parsed body instead would also split a
+        // true branch that merely consists of a group like `(?:a|b)`.)
+        let (branch_end, if_true) = self.parse_branch(next, depth)?;
+        let mut end = self.optional_whitespace(branch_end)?;
+        let mut if_false: Expr = Expr::Empty;
+        if self.re[end..].starts_with('|') {
+            let (false_end, false_branch) = self.parse_re(end + 1, depth)?;
+            if_false = false_branch;
+            end = false_end;
+        }
         if end == next {
             // Backreference validity checker
             if let Expr::Backref(group) = condition {
@@ -798,22 +808,6 @@ impl<'a> Parser<'a> {
                     )
                 ));
             }
-        }
-        let if_true: Expr;
-        let mut if_false: Expr = Expr::Empty;
-        if let Expr::Alt(mut alternatives) = child {
-            // the truth branch will be the first alternative
-            if_true = alternatives.remove(0);
-            // if there is only one alternative left, take it out the Expr::Alt
-            if alternatives.len() == 1 {
-                if_false = alternatives.pop().expect("expected 2 alternatives");
-            } else {
-                // otherwise the remaining branches become the false branch
-                if_false = Expr::Alt(alternatives);
-            }
-        } else {
-            // there is only one branch - the truth branch. i.e. "if" without "else"
-            if_true = child;
         }
         let inner_condition = if let Expr::Backref(group) = condition {
             Expr::BackrefExistsCondition(group)
